@@ -49,8 +49,8 @@ def cases(tier: str, seed: int) -> List[Dict[str, Any]]:
     # histories: formats sharing (E, M) but differing in srbits / rounding used in sequence in one
     # process; and float16 / bfloat16 / float64 inputs (quantisation still happens in float32)
     for E, M in ((4, 3), (5, 2), (2, 1), (5, 10)):
-        out.append({"E": E, "M": M, "srbits": 0, "kind": "history", "seq": [0, 3, 0, 1, 8, 0], "tier": tier, "seed": seed})
-        out.append({"E": E, "M": M, "srbits": 3, "kind": "history", "seq": [3, 0, "nearest", 3, 5], "tier": tier, "seed": seed})
+        out.append({"E": E, "M": M, "srbits": 0, "kind": "history", "seq": [0, 3, 0, 1, 8, 0], "tier": tier, "seed": seed, "fresh": True})
+        out.append({"E": E, "M": M, "srbits": 3, "kind": "history", "seq": [3, 0, "nearest", 3, 5], "tier": tier, "seed": seed, "fresh": True})
         for dt in ("float16", "bfloat16", "float64"):
             for sr in (2, 5):
                 out.append({"E": E, "M": M, "srbits": sr, "tier": tier, "seed": seed, "dtype": dt})
